@@ -266,6 +266,7 @@ def run_recover(case):
         orig = {}
         txn_at = {rec.pos: t for t in ptxns for rec in t.recs}
         into_multi = {}
+        into_any = {}
         for t in ptxns:
             recs = []
             for rec in t.recs:
@@ -283,6 +284,12 @@ def run_recover(case):
                     if tt is not None and \
                             sum(1 for y in tt.recs if y.oid == rec.oid) > 1:
                         into_multi.setdefault((t.tid, rec.oid), []).append(
+                            (tt.pos, tt.end))
+                    elif tt is not None:
+                        # ... or, when damage to another record of that
+                        # transaction turns it into one of this oid, the
+                        # damaged one
+                        into_any.setdefault((t.tid, rec.oid), []).append(
                             (tt.pos, tt.end))
                 try:
                     data = fsparse.resolve(rec, recs_at)
@@ -377,8 +384,45 @@ def run_recover(case):
                                      % (label, tid, t.pos, t.end)))
                         break
             # (b) output transactions outside the damage are unchanged
+            restamped = 'out of order' in out.getvalue()
+            by_content = {}
+            for otid, (t, recs) in orig.items():
+                by_content.setdefault(
+                    (t.status, t.user, t.desc, t.ext,
+                     tuple((oid, data) for oid, data, _ in recs)),
+                    []).append((otid, t))
             for tid, (gt, grecs) in got.items():
                 o = orig.get(tid)
+                if restamped:
+                    # fsrecover gives transactions whose id is not later
+                    # than the one before a new, later id.  When damage
+                    # changed the *id field* of a header into a later
+                    # value, the undamaged transactions behind it are
+                    # re-stamped -- and a new id can be the id of another
+                    # input transaction.  Identify an output transaction
+                    # by what it holds before comparing by id.
+                    same = o is not None and \
+                        (gt.status, gt.user, gt.desc, gt.ext) == \
+                        (o[0].status, o[0].user, o[0].desc, o[0].ext) and \
+                        list(grecs) == [(a, b_) for a, b_, _ in o[1]]
+                    if not same:
+                        cands = by_content.get(
+                            (gt.status, gt.user, gt.desc, gt.ext,
+                             tuple(grecs)), [])
+                        if any(t.pos < dend and t.pos + 8 > dstart
+                               for _, t in cands):
+                            # the faithful copy of a header whose id
+                            # field is damaged
+                            continue
+                        moved = [otid for otid, t in cands if otid != tid
+                                 and (t.end <= dstart or t.pos >= dend)]
+                        if moved:
+                            viol.append((
+                                'recover-changes-transaction/restamped-'
+                                'after-damaged-id', '%s: input transaction '
+                                '%r (not touched by the damage) is output '
+                                'with the id %r' % (label, moved[0], tid)))
+                            continue
                 if o is None:
                     # a transaction the original does not have: only
                     # possible if its header lies in the damaged range
@@ -405,6 +449,9 @@ def run_recover(case):
                         if any(a < dend and e > dstart for a, e in
                                into_multi.get((tid, x[0]), ())):
                             fam = '/pointer-into-damaged-multi-record-txn'
+                        elif any(a < dend and e > dstart for a, e in
+                                 into_any.get((tid, x[0]), ())):
+                            fam = '/pointer-into-damaged-txn'
                         viol.append(('recover-changes-transaction' + fam,
                                      '%s: record %r of %r changed'
                                      % (label, x[0], tid)))
